@@ -235,6 +235,39 @@ theorem send_step_outcomes (kid : Kid) (c : Caller) :
     cases kid.ports.marker <;> cases kid.rxAlive <;> simp
   · rcases hf with hf | hf <;> simp only [sendStep, hf]
 
+/-- (they do complete — every wait form) Once the actor's exit sequence has finished, every step of
+a call that is not done yet — whichever form, whether it started before, during or after the exit —
+strictly decreases the number of steps it still needs (`Caller.rank` ≤ 6: send step, create
+`Notified`, read the status, first poll, one more poll): no call is ever left blocked, the only
+assumption being that the caller is scheduled (and that nobody dropped its `Notified`). The exit
+sequence itself always finishes (`exiter_always_finishes`). -/
+theorem every_call_completes (x0 : X) (h0 : XInitial x0) (sched : List XTid) (j : Nat) (c : Caller) (kid : Kid)
+    (hc : (xrun x0 sched).callers[j]? = some c) (hk : (xrun x0 sched).kids[c.kid]? = some kid)
+    (hf : kid.g.exiter.finished = true) (hd : c.isDone = false)
+    (hslot : c.form ≠ .join → c.w < kid.g.waiters.length ∧ isAbandoned kid.g c.w = false) :
+    ∃ c' kid', (xstep (xrun x0 sched) (.call j)).callers[j]? = some c' ∧
+      (xstep (xrun x0 sched) (.call j)).kids[c.kid]? = some kid' ∧
+      Caller.rank kid' c' < Caller.rank kid c := by
+  have I := xinv_run _ sched (xinv_initial x0 h0)
+  have hi := I.kids kid (List.mem_of_getElem? hk)
+  have hjl := (List.getElem?_eq_some_iff.1 hc).1
+  have hkl := (List.getElem?_eq_some_iff.1 hk).1
+  refine ⟨(callStep kid c).2, (callStep kid c).1, ?_, ?_, call_progress kid c hi hf hd hslot⟩
+  · simp only [xstep, hc, hk]
+    exact List.getElem?_set_self hjl
+  · simp only [xstep, hc, hk]
+    exact List.getElem?_set_self hkl
+
+/-- non-vacuity of `every_call_completes`: a `stop_and_wait` whose stop was accepted, the exit runs
+to its end before the call's first poll; four more steps of the call and it has returned `Ok` -/
+example :
+    let x0 : X := { kids := [{ g := init true [] [] 1 }], callers := [{ kid := 0, form := .stopWait, w := 0 }] }
+    let x := xrun x0 ([.call 0] ++ List.replicate 17 (.kid 0 .e))
+    (x.callers.map (fun c => (c.pc, c.isDone)) = [(.waiting, false)]) ∧
+    (x.kids.map (fun k => (k.g.exiter.finished, k.g.waiters.length, isAbandoned k.g 0)) = [(true, 1, false)]) ∧
+    (x.callers.map (fun c => Caller.rank (x.kids.getD 0 {}) c) = [5]) ∧
+    ((xrun x [.call 0, .call 0]).callers.map (·.pc) = [.done (.ok true)]) := by decide
+
 /-- (children wrappers, what holds) When `stop_children_and_wait` / `drain_children_and_wait` has
 returned, every task of its `JoinSet` is done, and every child of the snapshot whose stop / drain
 request was accepted by THIS call and whose wait did not time out is fully stopped. -/
@@ -461,3 +494,4 @@ end C06
 #print axioms C06.timeout_has_no_effect
 #print axioms C06.returned_waiter_name_released
 #print axioms C06.send_step_outcomes
+#print axioms C06.every_call_completes
